@@ -5,7 +5,9 @@ from . import core, judge, ops_replay
 from . import tlc as T
 
 PLAIN = ("mixin", "light")
-OTHERS = ("node", "anynode", "symlink", "symlinkmixin")
+OTHERS = ("node", "anynode", "symlink", "symlinkmixin",
+          # classes with their own comparison / hashing / truth methods are node classes, too (C01 C02 C03 C16 quantify over them)
+          "adv:alwayseq:mixin", "adv:alwayseq:light", "adv:nevereq:light", "adv:unhashable:mixin", "adv:falsy:light")
 
 
 def configs(tier):
@@ -115,7 +117,7 @@ def _judge(outcomes):
             if len(events) >= MAX_JUDGED:
                 break
             obs = dict(att["obs"])
-            obs["strict"] = att["family"] != "light"
+            obs["strict"] = not att["family"].endswith("light")
             obs["asrt"] = out["asrt"]
             obs["id"] = "%d.%d" % (oi, ai)
             events.append(judge.normalise(obs, obs["id"]))
